@@ -1,5 +1,5 @@
 /*VERIF
-{ "tu": "src/apply.c", "enforce": "_dispatch_queue_try_reserve_apply_width", "props": ["C10","C04"], "nondet_volatile": true, "timeout": 120 }
+{ "tu": "src/apply.c", "enforce": "_dispatch_queue_try_reserve_apply_width", "props": ["C10","C04","C03"], "nondet_volatile": true, "timeout": 120 }
 VERIF*/
 #ifdef VERIF_PRE
 #else
@@ -8,6 +8,7 @@ VERIF*/
 VERIF_CONTRACT(int32_t, _dispatch_queue_try_reserve_apply_width, (dispatch_queue_t dq, int32_t da_width),
   REQ(dq == (dispatch_queue_t)H_DQ && __verif_n == 0 && da_width >= 1 && da_width <= 4096 && VALID_WIDTH(dq->dq_width))
   ASG(dq->dq_state, VERIF_GHOST)
+  /* C03: a serial queue anywhere in the hierarchy grants no parallel width, which is what forces dispatch_apply onto its in-order serial fallback */
   ENS(serial_queue_grants_nothing, VIMPL(dq->dq_width == 1, __CPROVER_return_value == 0 && __verif_n == 0))
   ENS(commit_iff_granted, (__CPROVER_return_value > 0) == (__verif_n == 1) && __verif_n <= 1 && __CPROVER_return_value >= 0)
   /* never more than requested, never more than what is free; exactly that much reader width is taken */
